@@ -209,10 +209,15 @@ def obs_events(chk):
     batch = obs.Batch('ObsC09')
     reps = 12 if chk.tier == 'quick' else 120
     sizes = [7, 16, 33, 64, 100, 129, 200]
-    grid = [(N, c) for N in sizes for c in (False, True)]
+    grid = [(N, c, None) for N in sizes for c in (False, True)]
+    # records longer than any plausible switch to an FFT-based path (128, 256, 512, 1024), with a number of lags in the
+    # middle of the range (where an under-padded circular correlation wraps around)
+    big = [(257, False, 128), (520, True, 260), (600, False, 450), (1030, False, 515)] + ([(1030, True, 300), (2050, False, 1025)] if chk.tier != 'quick' else [])
+    grid += big
     for rep in range(reps + len(grid)):
+        Lfix = None
         if rep < len(grid):
-            N, cplx = grid[rep]
+            N, cplx, Lfix = grid[rep]
         else:
             N = int(rng.choice(sizes))
             cplx = bool(rng.randint(2))
@@ -221,8 +226,9 @@ def obs_events(chk):
         if cplx:
             x = x + 1j * rng.randn(N)
             y = y + 1j * rng.randn(N)
-        L = int(rng.randint(0, N))
-        for norm in ('biased', 'unbiased', None, 'coeff'):
+        L = int(rng.randint(0, N)) if Lfix is None else Lfix
+        full = np.correlate(x, x, 'full')[N - 1:]          # the definition: sum_n x[n+k] conj(x[n]), k = 0..N-1
+        for norm in (('biased', 'unbiased', None, 'coeff') if Lfix is None else ('biased', None)):
             ev = {'ev': 'consistency', 'N': N, 'L': L, 'cplx': cplx, 'norm': str(norm)}
             ok1, a = call_guard(CORRELATION, x.copy(), maxlags=L, norm=norm)
             ok2, b = call_guard(xcorr, x.copy(), maxlags=L, norm=norm)
@@ -230,6 +236,8 @@ def obs_events(chk):
             if ok1 and ok2:
                 vals, lags = b
                 sc = max(np.max(np.abs(a)), 1e-300)
+                div = {'biased': N, 'unbiased': N - np.arange(L + 1), 'None': 1.0, 'coeff': full[0].real}[str(norm)]
+                ev['def_dev'] = obs.q(np.max(np.abs(np.asarray(a) - full[:L + 1] / div)) / sc) if len(a) == L + 1 else obs.QCAP
                 ev['len_c'] = int(len(a))
                 ev['len_x'] = int(len(vals))
                 ev['lag_first'] = int(lags[0])
@@ -238,7 +246,7 @@ def obs_events(chk):
                 ev['neg_dev'] = obs.q(np.max(np.abs(vals[:L + 1][::-1] - np.conj(a))) / sc) if len(vals) == 2 * L + 1 else obs.QCAP
                 ev['zero_lag_unit'] = bool(abs(a[0] - 1) < 1e-9) if norm == 'coeff' else True
             else:
-                ev.update(len_c=0, len_x=0, lag_first=0, lag_last=0, pos_dev=0, neg_dev=0, zero_lag_unit=False)
+                ev.update(len_c=0, len_x=0, lag_first=0, lag_last=0, pos_dev=0, neg_dev=0, def_dev=0, zero_lag_unit=False)
             batch.add(ev, {'N': N, 'L': L, 'cplx': cplx, 'norm': norm, 'seed': chk.seed, 'rep': rep})
         # cross correlation, equal lengths: xcorr vs CORRELATION in both directions
         ev = {'ev': 'cross', 'N': N, 'L': L, 'cplx': cplx}
